@@ -60,6 +60,19 @@ def _all():
                 yield {"fam": "planted", "L": LL, "G": [[{"x": 1}, 1]]}
             # the planted term implied only via the context
             yield {"fam": "planted", "L": [p], "G": L}
+    # terms that are nearly (but not) equal to a context term or to each other: must not be treated as duplicates
+    panel = [[{"x": 1, "y": -1}, 0], [{"x": 2, "y": 1}, 1], [{"x": -1, "y": 2.5}, 3], [{"x": 1}, 2]]
+    for t in panel:
+        for n in list(t[0]):
+            for f in (1.000008, 0.999992, 1.0001):
+                tp = [{**t[0], n: t[0][n] * f}, t[1]]
+                yield {"fam": "planted", "L": [tp], "G": [t]}
+                yield {"fam": "planted", "L": [tp, [{"y": 1}, 5]], "G": [t]}
+                yield {"fam": "planted", "L": [t, tp], "G": []}
+    # sequences of look-alike systems (equal to 4 significant digits) simplified one after the other in one process
+    for a, b in ((2.5, 2.5004), (1000, 1000.04), (0.12341, 0.12344)):
+        yield {"fam": "seq", "seq": [{"L": [[{"x": 1}, a], [{"x": 1}, a + 1]], "G": []}, {"L": [[{"x": 1}, b], [{"x": 1}, b + 1]], "G": []}]}
+        yield {"fam": "seq", "seq": [{"L": [[{"x": 1, "y": 1}, b]], "G": [[{"y": -1}, 0]]}, {"L": [[{"x": 1, "y": 1}, a]], "G": [[{"y": -1}, 0]]}]}
     # contract level
     a_terms = grids.terms(["i"], [-1, 1], [0, 1, 2])
     g_terms = [t for t in grids.terms(["i", "o"], [-1, 0, 1], [0, 1, 2])]
@@ -67,6 +80,10 @@ def _all():
         for g in grids.lists_upto(g_terms, 2):
             if "o" in grids.lvars(g):
                 yield {"fam": "contract", "a": a, "g": g}
+    # constructor: guarantees redundant only through assumptions that bound an input the guarantees do not mention
+    for k in (20, 9, 7):
+        yield {"fam": "contract2", "a": [[{"x": 1, "y": -1.5}, 0], [{"y": 1}, 2], [{"x": -1}, 10]], "g": [[{"o": 1, "x": -2}, 1], [{"o": 1, "x": 0.5}, k], [{"o": -1}, 4]]}
+        yield {"fam": "contract2", "a": [[{"x": 1, "y": -1}, 0], [{"y": 1}, 3]], "g": [[{"o": 1, "x": -1}, 0], [{"o": 1}, k]]}
     for L in grids.lists_upto(T, 3, minlen=3):
         for G in ([], [[{"x": 1, "y": 1}, 1]], [[{"y": -1}, 0]]):
             yield {"fam": "l3", "L": L, "G": G}
@@ -76,7 +93,7 @@ def _all():
             yield {"fam": "v3", "L": L, "G": G}
 
 
-QUICK = ("base", "planted", "contract")
+QUICK = ("base", "planted", "contract", "contract2", "seq")
 
 
 def cases(tier, seed):
@@ -131,6 +148,17 @@ def judge(L, G, R, sub):
 def run_case(case):
     if case["fam"] == "contract":
         return _run_contract(case)
+    if case["fam"] == "contract2":
+        return _run_contract(case, ins=["x", "y"])
+    if case["fam"] == "seq":
+        out = []
+        for k, c in enumerate(case["seq"]):
+            r = run_case({"fam": "planted", "L": c["L"], "G": c["G"]})[0]
+            viol = r[3]
+            if viol is not None:
+                viol = dict(viol, sub="seq#%d" % k, what="system %d of a sequence of look-alike systems: %s" % (k, viol["what"]))
+            out.append((r[0], True, r[2], viol) + tuple(r[4:]))
+        return out
     L = plist(case["L"])
     G = plist(case["G"]) if case["G"] is not None else None
     rL = O.rts(L)
@@ -154,22 +182,24 @@ def run_case(case):
     return [("returned", feas and (nd > 0 or bool(rG)), sig_list(R), viol, extra)]
 
 
-def _run_contract(case):
+def _run_contract(case, ins=("i",)):
     from pacti.contracts import PolyhedralIoContract
+
+    ins = list(ins)
 
     a, g = plist(case["a"]), plist(case["g"])
     ra, rg = O.rts(a), O.rts(g)
     feas = O.feasible(ra + rg)
     out = []
     try:
-        c = PolyhedralIoContract(a, g, pvars(["i"]), pvars(["o"]))
+        c = PolyhedralIoContract(a, g, pvars(ins), pvars(["o"]))
     except ValueError:
         return [("ValueError", False, None, {"sub": "ctor", "what": "constructor raised ValueError for feasible A and G"} if feas else None)]
     viol, nd = judge(rg, ra, O.rts(c.g), "ctor")
     if viol is None and O.rts(c.a) != ra:
         viol = {"sub": "ctor", "what": "assumptions changed by the constructor"}
     out.append(("returned", feas and nd > 0, ("c", sig_list(c.g)), viol, {"dropped" if nd else "kept-all": 1, "ctx-used": 1}))
-    c2 = PolyhedralIoContract(a, g, pvars(["i"]), pvars(["o"]), simplify=False)
+    c2 = PolyhedralIoContract(a, g, pvars(ins), pvars(["o"]), simplify=False)
     try:
         c2.simplify()
         viol, nd = judge(rg, ra, O.rts(c2.g), "simplify()")
